@@ -27,7 +27,7 @@ ANCHORS = [
     ("tangelo/linq/target/target_cirq.py", "simulate_circuit", "cirq plain simulation path / initial_state plumbing"),
     ("tangelo/linq/target/target_sympy.py", "simulate_circuit", "sympy bitstring reversal and statevector extraction"),
 ]
-REQUIRED = {"live_observations_total": 100, "cirq_statevector": 50, "cirq_frequencies": 50, "cirq_translated_unitary": 30, "cirq_sampled": 10,
+REQUIRED = {"cirq_backend_reuse": 100, "sympy_backend_reuse": 10, "live_observations_total": 100, "cirq_statevector": 50, "cirq_frequencies": 50, "cirq_translated_unitary": 30, "cirq_sampled": 10,
             "sympy_statevector": 10, "sympy_frequencies": 10, "single_gate_placement": 50}
 BUDGET = {"quick": 200, "thorough": 2400}
 TOL = 1e-9
@@ -56,6 +56,7 @@ def cases(tier, seed):
             if name in SYMPY_NAMES and (tier == "thorough" or nc <= 2):
                 out.append({"sub": "placement", "name": name, "nc": nc, "backend": "sympy"})
     out.append({"sub": "edge"})
+    out += [{"sub": "reuse", "i": i} for i in range(40 if tier == "quick" else 1500)]
     out.append({"sub": "repo_tests", "tier": tier})
     return out
 
@@ -192,6 +193,54 @@ def run_cirq(case, ctx):
                   f"sampled frequencies are not draws from the exact distribution (support_ok={supp_ok} norm_ok={norm_ok} {info})",
                   lambda: {"gates": gates, "n_qubits": n if n_fixed else None, "n_shots": n_shots, "freqs": freqs,
                            "exact": {k: v for k, v in probs.items() if v > 1e-12}})
+
+
+def run_reuse(case, ctx):
+    """One backend object, a history of calls: several circuits (re-simulated, extended in place between calls), with and without an
+    initial statevector, with return_statevector on and off.  Every call is compared with the reference: nothing may leak between calls."""
+    from tangelo.linq import get_backend
+    rng, pr, s = case_rng(ctx.seed, "C01", "reuse", case["i"])
+    bname = "sympy" if case["i"] % 5 == 4 else "cirq"
+    be = get_backend(bname)
+    order = be.backend_info()["statevector_order"]
+    pool = []
+    for _ in range(pr.randint(2, 3)):
+        n = pr.randint(1, 3 if bname == "sympy" else 5)
+        gl = (sympy_gates(pr, n, pr.randint(1, 4), 1) if bname == "sympy" else gen.random_gates(pr, n, pr.randint(1, 10), hostile=0.3))
+        pool.append({"gates": list(gl), "n": n, "circ": gen.to_circuit(gl, n_qubits=n)})
+    hist = []
+    for step in range(pr.randint(3, 6) if bname == "sympy" else pr.randint(5, 12)):
+        it = pr.choice(pool)
+        if pr.random() < 0.3:
+            g = None
+            while g is None:
+                g = (sympy_gates(pr, it["n"], 1, 1) or [None])[0] if bname == "sympy" else gen.random_gate(pr, it["n"], hostile=0.3)
+            it["gates"].append(g)
+            it["circ"].add_gate(gen.to_gate(g))      # the circuit object already seen by the backend grows in place
+            hist.append(["add_gate", pool.index(it), g])
+        n = it["n"]
+        init = gen.random_state(rng, n) if pr.random() < 0.4 else None
+        rsv = pr.random() < 0.6
+        ref_in = init
+        if init is not None and order != "lsq_first":
+            ref_in = np.transpose(init.reshape((2,) * n), tuple(reversed(range(n)))).reshape(-1)
+        ref = refsim.run(it["gates"], n, ref_in)
+        hist.append(["simulate", pool.index(it), "init" if init is not None else None, rsv])
+        freqs, sv = be.simulate(it["circ"], return_statevector=rsv, initial_statevector=init)
+        ef = refsim.freq_dict(ref, n)
+        ok = all(len(k) == n and abs(fnum(freqs.get(k, 0)) - ef.get(k, 0)) < 1e-7 for k in set(ef) | set(freqs))
+        if rsv:
+            got = np.array(sv).astype(complex).reshape(-1)
+            ok = ok and refsim.dist(got, expected_vector(ref, n, order)) < TOL
+        else:
+            ok = ok and sv is None
+        ctx.check(f"{bname}_backend_reuse", ok, f"{bname}: a call on a re-used backend object differs from the reference (state leaking between calls?)",
+                  lambda: {"backend": bname, "history": hist, "circuits": [[q["gates"], q["n"]] for q in pool],
+                           "got_freqs": {k: fnum(v) for k, v in freqs.items()}, "expected_freqs": ef})
+        if not ok:
+            break
+    ctx.nontrivial(("reuse", bname, repr(hist)))
+    ctx.sample({"sub": "reuse", "backend": bname, "steps": len(hist)})
 
 
 def sympy_gates(pr, n, ng, max_controls):
@@ -355,6 +404,8 @@ def run_case(case, ctx):
     sub = case["sub"]
     if sub == "repo_tests":
         return run_repo_tests(case, ctx)
+    if sub == "reuse":
+        return run_reuse(case, ctx)
     if sub == "cirq":
         run_cirq(case, ctx)
     elif sub == "sympy":
